@@ -359,7 +359,18 @@ func c10NaNKeys(c *Ctx, r *gen.Rand) {
 		}
 	}
 	if len(out) != want {
-		c.Fail("c10.lost_rows", k, "float sort key with NaN values (dedup=%v): %d rows written with %d distinct non-NaN keys (NaN present: %v), %d rows in the output, expected %d", dedup, n, len(distinct), hasNaN, len(out), want)
+		desc := ""
+		for i := range out {
+			if i < 40 {
+				desc += fmt.Sprintf(" %d:%v", out[i].ID, out[i].F)
+			}
+		}
+		if len(out) > want {
+			// more rows than keys: duplicates of a key survived
+			c.Fail("c10.dedup", k, "float sort key with NaN values: %d rows written with %d distinct non-NaN keys (NaN present: %v), %d rows in the output although duplicates are dropped, expected %d (%d NaN rows); output (id:f)%s", n, len(distinct), hasNaN, len(out), want, nans, desc)
+			return
+		}
+		c.Fail("c10.lost_rows", k, "float sort key with NaN values (dedup=%v): %d rows written with %d distinct non-NaN keys (NaN present: %v), %d rows in the output, expected %d; output (id:f)%s", dedup, n, len(distinct), hasNaN, len(out), want, desc)
 		return
 	}
 	for b := range distinct {
